@@ -20,8 +20,8 @@ import (
 
 type rat struct{ n, d poly }
 
-func rConst(k int64) rat  { return rat{pConst(k), pConst(1)} }
-func rSym(s string) rat   { return rat{pSym(s), pConst(1)} }
+func rConst(k int64) rat    { return rat{pConst(k), pConst(1)} }
+func rSym(s string) rat     { return rat{pSym(s), pConst(1)} }
 func (a rat) add(b rat) rat { return rat{a.n.mul(b.d).add(b.n.mul(a.d), 1), a.d.mul(b.d)} }
 func (a rat) mul(b rat) rat { return rat{a.n.mul(b.n), a.d.mul(b.d)} }
 func (a rat) neg() rat      { return rat{poly{}.add(a.n, -1), a.d} }
@@ -70,11 +70,14 @@ func (g *gateFields) poly(sub map[string]rat) rat {
 }
 
 type gatePath struct {
-	wenv    map[string]string // identifiers bound to wire symbols (helper parameters)
-	cenv    map[string]rat    // identifiers bound to coefficient values (helper parameters)
-	env     map[string]rat // locals by name
-	fields  *gateFields
-	sets    []struct{ wire string; val rat }
+	wenv   map[string]string // identifiers bound to wire symbols (helper parameters)
+	cenv   map[string]rat    // identifiers bound to coefficient values (helper parameters)
+	env    map[string]rat    // locals by name
+	fields *gateFields
+	sets   []struct {
+		wire string
+		val  rat
+	}
 	zchecks []rat
 	conds   []string
 	bad     string
